@@ -394,6 +394,12 @@ def gen_cases(run, rng):
             if len(b) <= lb:
                 cases.append({"kind": "full", "a": a, "b": b, "script": [], "dflt": False, "grp": "exhaustive"})
     nexh = len(cases)
+    # regression: line mode used to leave an empty DELETE behind (repaired in /repo: "fix: diff_cleanupSemantic
+    # must not leave empty edits behind")
+    cases.append({"kind": "full", "a": "x\n" * 48 + "1\n2\n3\nz", "b": "y\n" * 48 + "1\n2\n3\nz\nw",
+                  "script": [], "dflt": False, "grp": "long"})
+    cases.append({"kind": "sem", "d": [(DEL, "abc"), (INS, "abcd")], "grp": "sem"})
+    cases.append({"kind": "sem", "d": [(DEL, "xabc"), (INS, "abc")], "grp": "sem"})
     n = 1500 if quick else 12000
     for _ in range(n):
         kind = rng.choice(["letters", "words", "repeats", "letters", "unicode"])
@@ -518,7 +524,8 @@ def main(run):
     for c in cases:
         why = oracle(c)
         if why:
-            viols.append({"what": why, "replay": describe(c)})
+            rp = describe(c)
+            viols.append({"what": why, "replay": rp})
     viols.sort(key=lambda v: len(json.dumps(v["replay"], default=str)))
     bad, log = [], ""
     if pinfo.get("build_ok"):
